@@ -2,6 +2,7 @@
 package main
 
 import (
+	"encoding/json"
 	"flag"
 	"fmt"
 	"os"
@@ -58,6 +59,9 @@ func main() {
 		os.Exit(cmdCheck(os.Args[2:]))
 	case "dump":
 		os.Exit(cmdDump(os.Args[2:]))
+	case "rules":
+		b, _ := json.Marshal(allRules())
+		os.Stdout.Write(b)
 	case "obligations":
 		os.Exit(cmdObligations(os.Args[2:]))
 	case "selftest":
